@@ -100,6 +100,7 @@ class RunId(object):
         self.is_failed = True
 
         self._max_invocation = 0
+        self._loaded_from: dict = {}
         self._expandend_env = None
 
         self._hash = None
@@ -276,6 +277,14 @@ class RunId(object):
             self.total_unit = data_point.get_total_unit()
         if not warmup:
             self.statistics.add_sample(data_point.get_total_value())
+
+    def is_first_copy(self, invocation, iteration, source):
+        """
+        A run that is part of experiments with different data files is recorded
+        in each of them, and each file is loaded. A data point that was already
+        loaded from another file is the same data point, and counts once.
+        """
+        return self._loaded_from.setdefault((invocation, iteration), source) is source
 
     def loaded_data_point(self, data_point, warmup):
         for persistence in self._persistence:
